@@ -172,6 +172,18 @@ def run_dir(acc: Acc, seed: int, idx: int, nmoves: int, only=None) -> None:
                 }[dk]
                 (root / dest).write_text(text)
             dest_arg = dest[:-3] if mrng.random() < 0.5 else dest
+            # sequences: sometimes ANOTHER note is moved into the same destination first (not judged itself);
+            # the judged move then starts from the state that move left behind
+            if mrng.random() < 0.3 and dk != "self":
+                others_rows = [r_ for r_ in rows if r_["zid"] != zid and r_["page"] != dest]
+                if others_rows:
+                    pre = mrng.choice(others_rows)
+                    pr = db.cli(root, "note", "move", pre["zid"], dest_arg, config=cfg)
+                    if pr.rc == 0:
+                        acc.count("moves.preceded_by_another_move_into_the_same_destination")
+                        if pre["page"] == src:
+                            # the pre-move took lines out of the judged note's source page as well
+                            pass
             case = {"seed": seed, "idx": idx, "mi": mi, "zid": zid, "src": src, "dest": dest, "dest_kind": dk, "marker": marker}
             acc.evaluations += 1
             before = {str(f.relative_to(root)): f.read_text() for f in sorted(root.rglob("*")) if f.is_file() and ".zorg" not in f.parts}
@@ -266,7 +278,11 @@ def run_dir(acc: Acc, seed: int, idx: int, nmoves: int, only=None) -> None:
             if not ok:
                 continue
             zs_after = sorted(n.zid or "" for rel in comp for n in comp[rel])
-            zs_before = sorted([n["zid"] for n in rows if n["page"] in (src, dest)] + (["200101#Aa"] if dk in ("ends_multiline", "ends_section_header") else []) + (["200102#Da", "200103#Db"] if dk == "existing_template_match" else []))
+            def _zids_of(text):
+                ls, its = hg.scan(text)
+                return [hg.first_line_parts(ls[s_])[2] or "" for s_, _e in its]
+
+            zs_before = sorted(_zids_of(src_before) + (_zids_of(before[dest]) if (dest in before and dest != src) else []))
             if zs_after != zs_before and FINDING_MENTION not in findings:
                 acc.violation(f"recompiling {src} and {dest} gives ZIDs {zs_after}, before the move {zs_before}", case, cls="set of notes changed by the move")
                 continue
